@@ -256,9 +256,34 @@ def check_ensure_numpy(r, rule):
         if dt is not None and strip(dt) not in OBJ and not (is_const(strip(dt)) and strip(dt)[2] in (None, "object", "O", "str", "U")):
             r.rep.ob(rule, q, False, "ensure_numpy keeps the elements' values (no conversion to another element type)", where_of(r.P, s.func, e.node), expected="no dtype / astype conversion",
                      found=show(c, 80), key=f"converts {nm}", lint=True)
-    eq = Equiv(rewrites=std_rewrites(), modelled={"numpy.array", "numpy.asarray", "builtins.type", "builtins.isinstance", ".to_numpy"})
-    compare_function(r, rule, q, ENSURE_NUMPY_SPEC, "ensure_numpy returns the elements of its argument, in order and unchanged, as a positional array "
-                     "(Series.to_numpy(), an ndarray as it is, np.array(anything else))", eq=eq, key="ensure_numpy")
+    # the comparison itself is structural: here np.array(x) is *not* the same as x (a list handed back unconverted is the defect to find)
+    from .cond import compare_trees
+    from .rules import canon_params, lift_ite, rewrite, small_rewrites
+    from .terms import subst
+    sp = r.A.summarize_source(ENSURE_NUMPY_SPEC, "ensure_numpy", "pyrepseq.util")
+
+    def norm(t):
+        t = rewrite(rewrite(strip_all(t), small_rewrites), small_rewrites)
+        # np.asarray(x) and np.array(x) both give the positional array of x's elements
+        return rewrite(t, lambda x: ("call", ("glob", "numpy.array"), x[2], x[3]) if head(x) == "call" and strip(x[1]) == ("glob", "numpy.asarray") else x)
+    code = lift_ite(norm(subst(s.ret, canon_params(s))))
+    spec = lift_ite(norm(subst(sp.ret, canon_params(sp))))
+    try:
+        # (one direction is harmless: np.array(x) where the specification hands back the ndarray x itself is a copy with the same elements)
+        mism, rows = compare_trees(code, spec, lambda a_, b_: strip_all(a_) == strip_all(b_) or strip_all(a_) == ("call", ("glob", "numpy.array"), (strip_all(b_),), ()))
+    except AnalysisBroken as e:
+        r.rep.require(False, f"{q}: {e}; cannot decide [{rule}]")
+        mism = None
+    if mism is not None:
+        known = {"numpy.array", "numpy.asarray", "builtins.type", "builtins.isinstance", "builtins.getattr"}
+        extra = sorted({strip(x[1])[1] for x in walk(strip_all(s.ret)) if head(x) == "call" and head(strip(x[1])) == "glob" and strip(x[1])[1] not in known}
+                       | {"." + strip(x[1])[2] + "()" for x in walk(strip_all(s.ret)) if head(x) == "call" and head(strip(x[1])) == "attr" and strip(x[1])[2] not in ("to_numpy",)})
+        if mism and extra:
+            r.rep.require(False, f"{q}: differs from the specification, but uses constructs outside this rule's vocabulary ({', '.join(extra[:5])}); cannot decide [{rule}]")
+        else:
+            r.rep.ob(rule, q, not mism, "ensure_numpy returns the elements of its argument, in order and unchanged, as a positional array (Series.to_numpy(), an ndarray as it is, np.array(anything else))",
+                     where_of(r.P, s.func, s.func.node), expected="to_numpy() for a Series, the array itself for an ndarray, np.array(x) otherwise",
+                     found=(f"differs when {mism[0][0]}: {show(mism[0][1], 50)} instead of {show(mism[0][2], 50)}" if mism else "equivalent"), key="ensure_numpy")
     r.rep.floor(rule, 1)
 
 
